@@ -22,6 +22,8 @@ func c03(c *eng.Ctx, r *eng.Report) {
 		"R3.5 state commit then node-database commit, both error-checked, before success is reported and before the head moves (shared with C05 R5.4); " +
 		"R3.6 errors of batch writes and commits are consumed at every call site; R3.8 an entry leaves an account's flush set (dirtyStorage) only in updateTrie, as it is written to the storage trie; R3.7 the flag that makes Commit write an account's code blob is raised unconditionally (constant true) by every function that installs code bytes, lowered only in Commit after InsertBlob of those bytes, and never computed. " +
 		"R3.10 a node leaves the dirty-node cache only for a stated reason: uncache deletes the very key it was called with (the committed root, and its children by recursion over childs()), Cap deletes the oldest flush-list entry after having put it into the batch, dereference deletes a child whose reference count dropped to zero — no other function deletes from NodeDatabase.nodes, so nodes of a state that is committed to memory but not yet flushed cannot be dropped by flushing another one; " +
+		"R3.15 a reference is recorded per parent: NodeDatabase.reference skips the increment only when the child is not cached or when this parent's children map already holds the child — never because the child has some other parent; an account leaf that shares its storage root or code with a leftover, unflushed account would otherwise hold no reference of its own, and Commit(root) reports success without writing that storage trie or code; " +
+		"R3.14 every dirty slot reaches the storage trie: in accountObject.updateTrie each iteration over dirtyStorage passes a TryUpdate or a TryDelete on the storage trie before the next one starts (no `continue` that skips both) — a slot skipped because it equals some remembered earlier value keeps whatever an intermediate flush wrote: the committed root then holds another value than the one read before the commit; " +
 		"R3.13 the account trie is committed once per block, by AccountDB.Commit, with the leaf callback that links each account's storage root and code to its leaf: every Commit call on AccountDB.trie sits in (*AccountDB).Commit and passes a non-nil callback — a commit without it (from IntermediateRoot, say) leaves the nodes clean, the later Commit never sees the leaves, and TrieDB().Commit(root) writes an account trie whose storage roots and code are not on disk; " +
 		"R3.12 the stored form of a branch node carries all 17 entries: in the serialisers of fullNode and rawFullNode (EncodeRLP and the trie-package helpers they call) the entry array is never narrowed to a part of itself — the 17th entry is the value stored at the branch, a key that is a proper prefix of another (storage keys are raw strings here) lives only there; " +
 		"R3.11 Commit removes an account from the trie only if it self-destructed or was written in this block and is empty: deleteAccountObject is reached only across the `suicided` or the `isDirty` outcome — an account that was merely read looks empty while its storage cache is cold (empty() does not look at the storage root), and deleting it drops the account and all its slots from the committed root; " +
@@ -41,6 +43,8 @@ func c03(c *eng.Ctx, r *eng.Report) {
 	c03CommitDeletes(c, r)
 	c03AllSeventeen(c, r)
 	c03AccountTrieCommit(c, r)
+	c03EveryDirtySlotFlushed(c, r)
+	c03ReferencePerParent(c, r)
 }
 
 func batchCalls(fn *ssa.Function, method string) []*ssa.Call {
@@ -702,4 +706,116 @@ func c03AccountTrieCommit(c *eng.Ctx, r *eng.Report) {
 	if n == 0 {
 		r.Fail(rule, "account-trie-commit:none", "", "no Commit call on AccountDB.trie found: the rule has lost its anchor")
 	}
+}
+
+// c03EveryDirtySlotFlushed: see R3.14.
+func c03EveryDirtySlotFlushed(c *eng.Ctx, r *eng.Report) {
+	const rule = "R3.14"
+	r.Min(rule, 1)
+	fn := c.Func(acctPkg, "(*accountObject).updateTrie")
+	if !r.Anchor(fn != nil, rule, "(*accountObject).updateTrie") {
+		return
+	}
+	var lp *eng.RangeLoop
+	for _, b := range fn.Blocks {
+		for _, in := range b.Instrs {
+			if rg, ok := in.(*ssa.Range); ok && strings.HasSuffix(eng.Desc(rg.X), ".dirtyStorage") {
+				lp = eng.LoopOfRange(rg)
+			}
+		}
+	}
+	if !r.Anchor(lp != nil, rule, "updateTrie: range over dirtyStorage") {
+		return
+	}
+	writes := func(b *ssa.BasicBlock) bool {
+		for _, in := range b.Instrs {
+			if call, ok := in.(ssa.CallInstruction); ok {
+				n := eng.CallName(call.Common())
+				if strings.HasSuffix(n, ".TryUpdate") || strings.HasSuffix(n, ".TryDelete") {
+					return true
+				}
+			}
+		}
+		return false
+	}
+	skipAt := ""
+	seen := map[*ssa.BasicBlock]bool{}
+	var walk func(b *ssa.BasicBlock)
+	walk = func(b *ssa.BasicBlock) {
+		if seen[b] || !lp.Body[b] {
+			return
+		}
+		seen[b] = true
+		if writes(b) {
+			return
+		}
+		for _, s := range b.Succs {
+			if s == lp.Header {
+				skipAt = c.Pos(b.Instrs[len(b.Instrs)-1].Pos())
+				if skipAt == "" || skipAt == "?" || strings.HasSuffix(skipAt, ":0") {
+					skipAt = fmt.Sprintf("block %d", b.Index)
+				}
+				return
+			}
+			walk(s)
+		}
+	}
+	for _, s := range lp.Header.Succs {
+		if lp.Body[s] && s != lp.Header {
+			walk(s)
+		}
+	}
+	r.Check(skipAt == "", rule, "updateTrie:every-dirty-slot", c.Pos(fn.Pos()), "every iteration over dirtyStorage writes or deletes its slot in the storage trie", "updateTrie can finish an iteration over dirtyStorage without TryUpdate or TryDelete (back to the loop head from "+skipAt+"): the slot is removed from the dirty set but never written — A, SetData(B), flush, SetData(A), Commit leaves B in the trie, so GetData before the commit returns A and a reopen of the committed root returns B")
+}
+
+// c03ReferencePerParent: see R3.15.
+func c03ReferencePerParent(c *eng.Ctx, r *eng.Report) {
+	const rule = "R3.15"
+	r.Min(rule, 1)
+	fn := c.Func(triePkg, "(*NodeDatabase).reference")
+	if !r.Anchor(fn != nil, rule, "(*NodeDatabase).reference") {
+		return
+	}
+	var inc ssa.Instruction
+	for _, b := range fn.Blocks {
+		for _, in := range b.Instrs {
+			if st, ok := in.(*ssa.Store); ok {
+				if _, f := eng.FieldOf(st.Addr); f == "parents" {
+					inc = in
+				}
+			}
+		}
+	}
+	if !r.Anchor(inc != nil, rule, "reference: parents++") {
+		return
+	}
+	n, bad := 0, ""
+	for _, re := range eng.Returns(fn) {
+		if eng.Reaches(inc, re.Ret) {
+			continue
+		}
+		n++
+		ok := false
+		for _, cd := range eng.EdgeConds(re.Ret.Block()) {
+			ex, isE := cd.V.(*ssa.Extract)
+			if !isE || ex.Index != 1 {
+				continue
+			}
+			lk, isL := ex.Tuple.(*ssa.Lookup)
+			if !isL {
+				continue
+			}
+			d := eng.Desc(lk.X)
+			if strings.HasSuffix(d, ".nodes") && !cd.True {
+				ok = true // the child is not in the cache
+			}
+			if strings.HasSuffix(d, ".children") && cd.True {
+				ok = true // this parent already references this child
+			}
+		}
+		if !ok {
+			bad = c.Pos(re.Ret.Pos())
+		}
+	}
+	r.Check(bad == "" && n >= 1, rule, "reference:per-parent", c.Pos(fn.Pos()), fmt.Sprintf("%d early return(s), each for an uncached child or a reference this parent already holds", n), "NodeDatabase.reference returns at "+bad+" without counting the reference although neither the child is uncached nor this parent already references it: a child that merely has another parent gets no reference from this one — when two accounts share a storage root or code and the first was left unflushed, Commit(root) of the second writes the account trie only and reports success; the root on disk is not resolvable")
 }
